@@ -94,12 +94,24 @@ type wrappedWatchArgs struct {
 	tfm *transform.Transformer
 }
 
-func (w *wrappedWatchArgs) NewValue(ctx context.Context, val reflect.Value) error {
+// ReportNewValue reverse-translates the value reported by the wrapped watcher
+// before handing it to the underlying WatchArgs.
+func (w *wrappedWatchArgs) ReportNewValue(ctx context.Context, val reflect.Value) error {
 	unmangledVal, unmangleErr := w.tfm.ReverseTranslate(val)
 	if unmangleErr != nil {
 		return fmt.Errorf("failed to unmangle value: %w", unmangleErr)
 	}
-	return w.NewValue(ctx, unmangledVal)
+	return w.WatchArgs.ReportNewValue(ctx, unmangledVal)
+}
+
+// BlockingReportNewValue reverse-translates the value reported by the wrapped
+// watcher before handing it to the underlying WatchArgs.
+func (w *wrappedWatchArgs) BlockingReportNewValue(ctx context.Context, val reflect.Value) error {
+	unmangledVal, unmangleErr := w.tfm.ReverseTranslate(val)
+	if unmangleErr != nil {
+		return fmt.Errorf("failed to unmangle value: %w", unmangleErr)
+	}
+	return w.WatchArgs.BlockingReportNewValue(ctx, unmangledVal)
 }
 
 type transformingSourceWithWatch struct {
